@@ -240,6 +240,11 @@ func monitor(rep *emit.Report, c *caseRun) {
 			if !p.Verifies {
 				rep.Fail("C01-unverifiable-beacon-stored", "a stored beacon does not verify under the group key", in)
 			}
+			// C03: what the aggregator builds while handling a partial is the group's signature: Recover
+			// was given at least the live threshold of valid partials (with fewer it interpolates another value)
+			if s.ev.Kind == "part" && len(s.obs.Syncs) == 0 && p.Round > 0 && !p.Verifies {
+				rep.Fail("C03-aggregated-beacon-does-not-verify", fmt.Sprintf("round %d was stored while handling a partial and its signature is not the group's: it was interpolated from fewer than the live threshold (%d) of valid partials", p.Round, thr), in)
+			}
 			// C03: a beacon the aggregator appends while handling a partial (no sync stream involved) was
 			// recovered from valid partials of at least a threshold of distinct indices of the live group,
 			// the node's own released partial included -- copies of it coming back from the network do not count
